@@ -96,15 +96,17 @@ theorem fold_run (m : Mode) (hmt : m ≠ .token) (op : Num → UInt8 → Num)
     rw [List.cons_append, runBytes_cons_ok {} hs, List.foldl_cons]
     exact h
 
-/-- the digits of the integer loop below the limit: the fast path does what `AddDigit` does -/
+/-- the digits of the integer loop below the limit: the fast path does what `AddDigit` does, and the loop stays in
+the state (fast or not) it is in -/
 theorem digits_run_acc (ds : Bytes) : ∀ (st : St) (f : Fast) (p : Pos) (rest : Bytes) (neg : Bool) (v : Nat),
     st.mode = .digit → f.nlSkipping = false → (∀ d ∈ ds, isDigitB d) → NumOK st.num neg v →
     ds.foldl (fun a b => a * 10 + dval b) v < 9223372036854775800 →
     ∃ f' p', runBytes refTables {} st f p (ds ++ rest) =
         runBytes refTables {} { st with num := ds.foldl Num.addDigit st.num } f' p' rest ∧
-      f'.nlSkipping = false ∧ NumOK (ds.foldl Num.addDigit st.num) neg (ds.foldl (fun a b => a * 10 + dval b) v) := by
+      f'.nlSkipping = false ∧ NumOK (ds.foldl Num.addDigit st.num) neg (ds.foldl (fun a b => a * 10 + dval b) v) ∧
+      f'.inFast = f.inFast ∧ f'.tokFast = f.tokFast := by
   induction ds with
-  | nil => intro st f p rest neg v hm hf _ hn _; exact ⟨f, p, rfl, hf, hn⟩
+  | nil => intro st f p rest neg v hm hf _ hn _; exact ⟨f, p, rfl, hf, hn, rfl, rfl⟩
   | cons d r ih =>
     intro st f p rest neg v hm hf hds hn hv
     have hd := hds d List.mem_cons_self
@@ -112,17 +114,14 @@ theorem digits_run_acc (ds : Bytes) : ∀ (st : St) (f : Fast) (p : Pos) (rest :
     have hge := foldl_ge r (v * 10 + dval d)
     have hvs : v < 922337203685477580 := by omega
     obtain ⟨hok, hadd, _⟩ := NumOK_digit st.num neg v d hn hvs hd
-    obtain ⟨f1, hf1, hstep⟩ := step_numDigit st f d true neg v hm hf hd hn hvs
-    have hstep' : ∀ l, step refTables {} st f d l = .ok ({ st with num := st.num.addDigit d }, f1, false) := by
-      intro l
-      have : step refTables {} st f d l = step refTables {} st f d true := by simp [step, hf]
-      rw [this, hstep, hadd]
+    have hstep' := fun l => step_numDigitF st f d l neg v hm hf hd hn hvs
     have hok' : NumOK ({ st with num := st.num.addDigit d } : St).num neg (v * 10 + dval d) := by
       show NumOK (st.num.addDigit d) neg _
       rw [hadd]; exact hok
-    obtain ⟨f', p', hrun, hf', hn'⟩ := ih { st with num := st.num.addDigit d } f1 (p.next false) rest neg (v * 10 + dval d) hm hf1
+    obtain ⟨f', p', hrun, hf', hn', hi', ht'⟩ := ih { st with num := st.num.addDigit d }
+      { inFast := f.inFast, tokFast := f.tokFast, nlSkipping := false } (p.next false) rest neg (v * 10 + dval d) hm rfl
       (fun x hx => hds x (List.mem_cons_of_mem _ hx)) hok' hv
-    refine ⟨f', p', ?_, hf', hn'⟩
+    refine ⟨f', p', ?_, hf', hn', hi', ht'⟩
     rw [List.cons_append, runBytes_cons_ok {} hstep']
     exact hrun
 
@@ -159,7 +158,7 @@ theorem ip_run (neg : Bool) (ip : Bytes) (hip : Dig ip) (hl : Lead ip) (hb : nat
           .ok (s1, { inFast := true, tokFast := f.tokFast, nlSkipping := false }, false) :=
         fun l => step_valDigit st f d l hm hf hd
       have hok1 : NumOK s1.num false (dval d) := ⟨rfl, Json.digit_toUInt64 d hdd, rfl, rfl, rfl⟩
-      obtain ⟨f', p', hrun, hf', hn'⟩ := digits_run_acc ds s1 { inFast := true, tokFast := f.tokFast, nlSkipping := false }
+      obtain ⟨f', p', hrun, hf', hn', _, _⟩ := digits_run_acc ds s1 { inFast := true, tokFast := f.tokFast, nlSkipping := false }
         (p.next false) rest false (dval d) rfl rfl hdsB hok1 (by rw [natOf_cons_foldl']; exact hb)
       have hacc : accInt false (d :: ds) = ds.foldl Num.addDigit s1.num := by
         simp only [accInt, List.foldl_cons, Json.addDigit_fresh false d hd']
@@ -190,7 +189,7 @@ theorem ip_run (neg : Bool) (ip : Bytes) (hip : Dig ip) (hl : Lead ip) (hb : nat
       have hok2' : NumOK s2.num true (dval d) := by
         show NumOK (s1.num.addDigit d) true (dval d)
         rw [hadd]; simpa using hok2
-      obtain ⟨f', p', hrun, hf', hn'⟩ := digits_run_acc ds s2 (fS (fS f)) ((p.next false).next false) rest true (dval d) rfl rfl
+      obtain ⟨f', p', hrun, hf', hn', _, _⟩ := digits_run_acc ds s2 (fS (fS f)) ((p.next false).next false) rest true (dval d) rfl rfl
         hdsB hok2' (by rw [natOf_cons_foldl']; exact hb)
       have hacc : accInt true (d :: ds) = ds.foldl Num.addDigit s2.num := by
         simp only [accInt, List.foldl_cons]
